@@ -7,6 +7,8 @@
 #include "vh.hpp"
 #include "superscalar.hpp"
 #include "blake2_generator.hpp"
+#include "randomx.h"
+#include "dataset.hpp"
 #include <vector>
 #include <string>
 
@@ -43,6 +45,36 @@ int main(int argc, char** argv) {
 		for (size_t b = 0; b < g_next; ++b) { if (b) blocks += ","; blocks += json_limbs(g_blocks[b].data(), 64); }
 		blocks += "]";
 		Line l; l.str("e", "ssx").num("sseed", (long long)id.first).num("idx", s).num("skew", style).num("used", (long long)g_next).raw("blocks", blocks).raw("progs", progs + "]"); l.emit(out);
+	}
+	// ---- randomx_init_cache itself along scripted streams (eight programs, the reciprocal table, immediates replaced by table indices):
+	//      streams with far more IMUL_RCP instructions than any key produces in practice
+	{
+		const char* initl = arg(argc, argv, "--init", "");
+		std::vector<std::pair<uint64_t, int>> iids;
+		for (const char* c = initl; *c;) { char* e; uint64_t sd = strtoull(c, &e, 10); if (*e != ':') break; int ix = (int)strtol(e + 1, &e, 10); iids.push_back({ sd, ix }); c = *e == ',' ? e + 1 : e; }
+		for (auto& id : iids) {
+			unsigned style; make_stream(id.first, id.second, style);
+			randomx_cache* cache = randomx_alloc_cache(RANDOMX_FLAG_DEFAULT);
+			if (!cache) continue;
+			const char key[] = "scripted";
+			g_onlyRefill = true;                    // (the generator's constructor does not hash: the first refill already comes from the script)
+			randomx_init_cache(cache, key, sizeof key - 1);
+			g_onlyRefill = false;
+			std::string progs = "[";
+			for (int i = 0; i < RANDOMX_CACHE_ACCESSES; ++i) {
+				SuperscalarProgram& p = cache->programs[i];
+				if (i) progs += ",";
+				progs += "{\"size\":" + std::to_string(p.getSize()) + ",\"addr\":" + std::to_string(p.getAddressRegister()) + ",\"ins\":[";
+				for (unsigned j = 0; j < p.getSize(); ++j) { Instruction& in = p(j); uint32_t imm = in.getImm32(); char b[96]; snprintf(b, sizeof b, "%s[%u,%u,%u,%u,%u,%u]", j ? "," : "", in.opcode, in.dst, in.src, in.mod, imm & 0xffff, imm >> 16); progs += b; }
+				progs += "]}";
+			}
+			std::string blocks = "[";
+			for (size_t b = 0; b < g_next; ++b) { if (b) blocks += ","; blocks += json_limbs(g_blocks[b].data(), 64); }
+			std::string rcps = "[";
+			for (size_t k = 0; k < cache->reciprocalCache.size(); ++k) { if (k) rcps += ","; rcps += json_limbs(&cache->reciprocalCache[k], 8); }
+			Line l; l.str("e", "ssinit").num("sseed", (long long)id.first).num("idx", id.second).num("used", (long long)g_next).raw("blocks", blocks + "]").raw("progs", progs + "]").raw("rcps", rcps + "]"); l.emit(out);
+			randomx_release_cache(cache);
+		}
 	}
 	fclose(out);
 	return 0;
